@@ -159,5 +159,13 @@ def pmap(func, jobs, procs=None, chunksize=None):
     if procs <= 1:
         return [func(j) for j in jobs]
     ctx = multiprocessing.get_context('fork')
-    with ctx.Pool(procs) as pool:
-        return pool.map(func, jobs, chunksize or max(1, min(64, len(jobs) // (procs * 4) or 1)))
+    # the orchestrator often holds hundreds of thousands of exported cases: keep them out of the garbage collector's way in the workers
+    # (a full collection over that heap costs seconds, and touching it breaks copy-on-write sharing)
+    import gc
+    gc.collect()
+    gc.freeze()
+    try:
+        with ctx.Pool(procs) as pool:
+            return pool.map(func, jobs, chunksize or max(1, min(64, len(jobs) // (procs * 4) or 1)))
+    finally:
+        gc.unfreeze()
